@@ -666,6 +666,8 @@ def apply_contract(eng, fi, c, self_val, args, kw, st, e):
         eng.spec = None
         # typing info of the callee's paths is not re-declared at the caller
         for cl in c.requires:
+            if not eng.rel(cl):
+                continue
             forced = None
             try:
                 g = eng.eval_clause(cl, pre, pre=pre, polarity=1, lets=lets)
@@ -700,6 +702,8 @@ def apply_contract(eng, fi, c, self_val, args, kw, st, e):
         post = spec_state(eng, st, b)
         post.env["result"] = res
         for cl in c.ensures:
+            if not eng.rel(cl):
+                continue
             g = eng.eval_clause(cl, post, pre=pre, polarity=-1, lets=lets)
             ctx().add_fact(z3.Implies(st.pc, g))
         for cl in c.assume:
